@@ -406,6 +406,58 @@ def block_dataset(rng, n, sizes=(1, 2, 3, 3, 4, 4, 5), mmax=7):
     return ds, blocks
 
 
+def trap_dataset(rng, tail=None, names=None, order=None, head=None, sk=None):
+    """(dataset, index of the good ranking): a local-search trap.  The majority ranking r2 (k copies) and one dissenting
+    ranking r1 share a chain head / tail and differ by the order of two adjacent tied buckets B1, B2 of s elements each
+    (one or several such pairs).  With 2s >= k + 1 no single-element move improves r1 (taking one element of B2 behind B1
+    gains s(k-1) on the pairs with B1 and loses (s-1)(k+1) on the pairs with its former bucket mates, under schemes where
+    ties and inversions cost the same), and the search from the all-tied ranking usually stalls as well: r2 is then the only
+    departure that leads to the score of r2 itself.  A BioConsert that loses one of its distinct input rankings as a
+    departure (de-duplication by a lossy key, a skipped index, ...) returns something worse than an input ranking.
+    tail: number of singleton buckets after the trap (1000 makes the printed form of a numpy row abbreviate)"""
+    s = rng.choice([3, 3, 4])
+    k = rng.choice([2, 2, 3]) if s == 3 else rng.choice([2, 3, 4])
+    traps = rng.choice([1, 1, 2, 3])
+    drawn_head = rng.choice([0, 1, 3, 3])
+    head = drawn_head if head is None else head
+    if sk is not None:
+        s, k = sk
+    if tail is None:
+        tail = rng.choice([0, 1, 3])
+    n = head + 2 * s * traps + tail
+    if names is None:
+        names = list(range(n))
+        if n <= 40 and rng.random() < 0.5:
+            _, names = element_names(rng, n, rng.choice(["int", "bigint", "str", "negint"]))
+    names = list(names)
+    at = 0
+    r1, r2 = [], []
+    for _ in range(head):
+        r1.append([names[at]])
+        r2.append([names[at]])
+        at += 1
+    for _ in range(traps):
+        b1 = names[at:at + s]
+        b2 = names[at + s:at + 2 * s]
+        at += 2 * s
+        r1 += [list(b2), list(b1)]
+        r2 += [list(b1), list(b2)]
+    for _ in range(tail):
+        r1.append([names[at]])
+        r2.append([names[at]])
+        at += 1
+    drawn = rng.choice(["dissenter-first", "dissenter-first", "dissenter-last", "dissenter-middle"])
+    order = order or drawn
+    copies = [[list(b) for b in r2] for _ in range(k)]
+    if order == "dissenter-first":
+        ds = [r1] + copies
+    elif order == "dissenter-last":
+        ds = copies + [r1]
+    else:
+        ds = copies[:1] + [r1] + copies[1:]
+    return ds, {"s": s, "k": k, "traps": traps, "order": order, "good_score_unifying": s * s * traps}
+
+
 def universe_of(ds):
     return [e for r in ds for b in r for e in b]
 
